@@ -51,7 +51,14 @@ func runRecovered(input string) (obs string) {
 			obs = "PANIC " + drv.Clean(strings.TrimSpace(strings.SplitN(strings.TrimSpace(sprint(r)), "\n", 2)[0]))
 		}
 	}()
-	return runRun(drv.KV(input))
+	m := drv.KV(input)
+	if m["k"] == "iter" {
+		return runIter(m)
+	}
+	if m["k"] == "dnsc" {
+		return runDnsc(m)
+	}
+	return runRun(m)
 }
 
 func sprint(v any) string {
@@ -164,7 +171,7 @@ const childLimit = 100 * time.Second
 
 func runViaChild(input string) string {
 	if os.Getenv("C19_NOCHILD") == "1" {
-		return runRun(drv.KV(input))
+		return runRecovered(input)
 	}
 	poolOnce.Do(initPool)
 	c := <-pool
@@ -172,7 +179,7 @@ func runViaChild(input string) string {
 		var err error
 		if c, err = spawn(); err != nil {
 			pool <- nil
-			return runRun(drv.KV(input)) // no child processes on this machine: run the case here
+			return runRecovered(input) // no child processes on this machine: run the case here
 		}
 	}
 	c.errs.reset()
